@@ -494,7 +494,7 @@ class OFXClient:
         # ORG/FID are free text (e.g. "Cavion/Phoenix"); make them safe for a file name
         # (and keep "ORG-FID" unambiguous: "a-b"/"c" isn't "a"/"b-c")
         ident = "-".join(
-            urllib_parse.quote(str(part), safe="").replace("-", "%2D")
+            urllib_parse.quote(str(part or ""), safe="").replace("-", "%2D")
             for part in (self.org, self.fid)
         )
         filename = f"{ident}-{urlhash}.profrs"
